@@ -41,7 +41,7 @@ NAMES = {
     "animal": ["animal"],
     "false_positive": ["false_positive"],
 }
-ATTRS = ["cycle_state.without_rider", "cycle_state.with_rider", "vehicle_state.parked", "pedestrian_state.sitting"]
+ATTRS = ["cycle_state.without_rider", "cycle_state.with_rider", "vehicle_state.parked", "pedestrian_state.sitting", "vehicle_state.Stopped"]  # dataset attribute strings are arbitrary (mixed case, too)
 IGNORABLE = ["vehicle.police", "pedestrian.child", "movable_object.barrier", "vehicle.motorcycle"] + ATTRS
 
 
